@@ -4,6 +4,8 @@ import (
 	"crypto/cipher"
 	"encoding/json"
 	"fmt"
+	"os"
+	"path/filepath"
 	"reflect"
 	"strconv"
 	"strings"
@@ -125,7 +127,25 @@ func boundaryValue(d rscp.DataType) interface{} {
 	return nil
 }
 
+// the committed snapshot of published tags: number -> (name, data type)
+var published = map[uint64][2]string{}
+
+func loadPublished() {
+	b, err := os.ReadFile(filepath.Join(os.Getenv("VERIF_ROOT"), "coq", "golden", "Published.tsv"))
+	if err != nil {
+		return
+	}
+	for _, l := range strings.Split(string(b), "\n") {
+		f := strings.Split(l, "\t")
+		if len(f) == 3 {
+			n, _ := strconv.ParseUint(f[0], 10, 32)
+			published[n] = [2]string{f[1], f[2]}
+		}
+	}
+}
+
 func init() {
+	loadPublished()
 	props["C14"] = &prop{
 		rule: "all known tags (String, TagString, IsATag, DataType, request/response/secret, JSON both ways) + boundary and random unknown tag numbers + decimal/malformed tag strings + all 256 data type codes + data type names; non-trivial = every case (each exercises a table lookup or a JSON conversion); distinct by case line",
 		gen: func(tier string, r *rng, emit func(string)) {
@@ -298,6 +318,11 @@ func init() {
 				n, _ := strconv.ParseUint(f[1], 10, 32)
 				if kv["back"] != f[1] {
 					return fmt.Sprintf("tag %s written to JSON as %q reads back as %s", f[1], string(unhx(kv["js"])), kv["back"])
+				}
+				if pub, ok := published[n]; ok {
+					if kv["isa"] != "1" || string(unhx(kv["name"])) != pub[0] || kv["dt"] != pub[1] {
+						return fmt.Sprintf("published tag %d (%s, data type %s) is now (%s, data type %s)", n, pub[0], pub[1], string(unhx(kv["name"])), kv["dt"])
+					}
 				}
 				bit := (n>>23)&1 == 1
 				if kv["req"] != b01(!bit) || kv["resp"] != b01(bit) {
